@@ -133,6 +133,24 @@ Section PANOC.
       (0 < p_Lgamma P -> 0 < Linit -> 0 < γ) /\
       (Linit <> 0 -> exists L, γ * L = p_Lgamma P).
   Proof. exact (panoc_inner_contract psi_grad_full psi_yhat grad_L grad_psi lb ub l1 dir_apply has_initial stop_req time_up P x_in y_in Σ errz_in ls_fuel). Qed.
+
+  (* (g) termination of the line search: with a finite L_max (reached from L after nL doublings), L > 0, an update factor in [0,1]
+     whose nT-th power is below min_linesearch_coefficient (> 0), `while (!stop_requested)` makes at most (nL+1)(nT+3) passes;
+     hence no pass of the outer loop of any run reports OutOfFuel when ls_fuel is at least that bound.
+     (The OUTER loop: k <= max_iter bounds completed iterations — theorem (e) — but a stop oracle that alternates between polls can
+      interrupt line searches forever; with the real, sticky flag the next stop check returns. Not proved as a fuel bound.) *)
+  Theorem PANOC_linesearch_terminates : forall (cL : R) (nL nT : nat) (q : list R) (τi : R),
+    0 < cL -> p_Lmax P <= cL * 2 ^ nL -> 0 <= p_tau_factor P <= 1 -> p_tau_factor P ^ nT < p_tau_min P -> τi = 0 \/ τi = 1 ->
+    forall (curr next : iterate (T:=R)) upd c st, iL curr = cL -> forall fuel, (ls_pass_bound nL nT <= fuel)%nat ->
+    ls_loop psi_grad_full psi_yhat grad_L lb ub l1 stop_req P fuel q τi
+            (mkLs curr (set_gamma_L next (igam curr) (iL curr)) τi (- 1) upd false c st) <> LsFuel.
+  Proof. exact (ls_terminates psi_grad_full psi_yhat grad_L grad_psi lb ub l1 dir_apply has_initial stop_req time_up P x_in y_in Σ errz_in ls_fuel). Qed.
+  Theorem PANOC_pass_never_out_of_fuel : forall (nL nT : nat) s, Reachable s ->
+    0 < Linit -> p_Lmax P <= Linit * 2 ^ nL ->
+    0 <= p_tau_factor P <= 1 -> p_tau_factor P ^ nT < p_tau_min P ->
+    (ls_pass_bound nL nT <= ls_fuel)%nat ->
+    pass psi_grad_full psi_yhat grad_L lb ub l1 dir_apply has_initial stop_req time_up P x_in y_in Σ errz_in ls_fuel s <> PFuel.
+  Proof. exact (reachable_pass_never_out_of_fuel psi_grad_full psi_yhat grad_L grad_psi lb ub l1 dir_apply has_initial stop_req time_up P x_in y_in Σ errz_in ls_fuel). Qed.
 End PANOC.
 
 (* the data of the contract give C01's stationarity bound: dist∞(-∇ψ(x̂), N_C(x̂)) <= tolerance *)
@@ -160,6 +178,8 @@ Print Assumptions PANOC_status_clauses.
 Print Assumptions PANOC_exit.
 Print Assumptions PANOC_inner_contract.
 Print Assumptions PANOC_contract_gives_stationarity.
+Print Assumptions PANOC_linesearch_terminates.
+Print Assumptions PANOC_pass_never_out_of_fuel.
 
 (* non-vacuity: the hypothesis `run fuel = Done o` is satisfiable over R (a concrete run: constant oracles, max_iter = 0) *)
 Definition nv_P : params (T:=R) := mkParams 0 10 1 (1/1000000) (1/1000000) (1/2) 1 1 ProjGradNorm 0 0 (1/2) (1/2) (1/4) false false false false true 0.
